@@ -34,18 +34,18 @@ type Task struct {
 	dying bool
 	site  string
 	// rendezvous slots
-	recvVal reflect.Value
-	recvOK  bool
-	gotVal  bool
-	sent    bool
-	Panic   interface{}
+	recvVal    reflect.Value
+	recvOK     bool
+	gotVal     bool
+	sent       bool
+	Panic      interface{}
 	PanicStack string
 }
 
 type timer struct {
-	at  time.Duration
-	seq uint64
-	fn  func()
+	at   time.Duration
+	seq  uint64
+	fn   func()
 	dead bool
 }
 
@@ -69,21 +69,21 @@ func (h *timerHeap) Pop() interface{} {
 }
 
 type sched struct {
-	w      *World
-	tasks  []*Task
-	cur    *Task
-	back   chan struct{}
-	now    time.Duration
-	timers timerHeap
-	tseq   uint64
-	Steps  int
+	w        *World
+	tasks    []*Task
+	cur      *Task
+	back     chan struct{}
+	now      time.Duration
+	timers   timerHeap
+	tseq     uint64
+	Steps    int
 	Switches int
-	chans  map[uintptr]*chanState
-	ilHash uint64 // running hash of the context-switch sequence (interleaving identity)
-	KeepBias int  // out of 8: probability weight of keeping the current task when it is runnable
-	Fair   bool   // quiet phase: round-robin, no draws
-	rr     int
-	curProc *Proc
+	chans    map[uintptr]*chanState
+	ilHash   uint64 // running hash of the context-switch sequence (interleaving identity)
+	KeepBias int    // out of 8: probability weight of keeping the current task when it is runnable
+	Fair     bool   // quiet phase: round-robin, no draws
+	rr       int
+	curProc  *Proc
 }
 
 // StartScheduler equips the world with a scheduler (and a kernel if k is true).
@@ -106,10 +106,10 @@ func (w *World) Now() time.Duration {
 	return w.sched.now
 }
 
-func (w *World) Steps() int        { return w.sched.Steps }
+func (w *World) Steps() int           { return w.sched.Steps }
 func (w *World) Interleaving() uint64 { return w.sched.ilHash }
-func (w *World) SetFair(f bool)    { w.sched.Fair = f }
-func (w *World) SetKeepBias(b int) { w.sched.KeepBias = b }
+func (w *World) SetFair(f bool)       { w.sched.Fair = f }
+func (w *World) SetKeepBias(b int)    { w.sched.KeepBias = b }
 
 // Active reports whether transformed code is currently running under the scheduler.
 func Active() bool { return W != nil && W.sched != nil && W.sched.cur != nil }
